@@ -23,13 +23,16 @@ Gen/StlTie_C08_*.v (mirror check of the Python specs below against StlPtrSpec.v,
 A failing piece is searched for its first failing operands, which are CONFIRMED ON THE REAL ENGINES before anything is
 reported; replay = stand-alone .fj program (operands as literals, addresses written symbolically as label+offset).
 """
+import atexit
 import dataclasses
 import itertools
 import json
 import math
 import os
 import re
+import threading
 import time
+from concurrent.futures import ThreadPoolExecutor
 from dataclasses import dataclass, field
 from pathlib import Path
 
@@ -39,8 +42,8 @@ from . import stl
 GEN = stl.GEN
 HDR = ('From FJ Require Import Lib.Base Spec.MachineSpec Spec.StlSpec Spec.StlPtrSpec Model.StlRun Model.StlPtrRun '
        'Proofs.StlProps Proofs.StlPtrProps')
-PIECE_STEPS = 1_200_000
-IMG_EXTRA_WORDS = 48_000
+PIECE_STEPS = int(os.environ.get('FJVERIF_PIECE_STEPS', '1200000'))   # machine steps per generated piece file
+IMG_EXTRA_WORDS = 80_000     # words of blocks per image beyond the start-up code (image compile is memory-budgeted, see coqc_weighted)
 
 
 # ---------------------------------------------------------------------------------------------------------
@@ -676,6 +679,36 @@ def emit_image(im):
     return path
 
 
+def coqc_weighted(items, timeout):
+    """items: [(path, image words)].  Compiling an image takes about 17 KB of memory per image word (1.7 GB for 100k words):
+    images are compiled in parallel under a memory budget (40% of the memory available now, at least 6 GB)"""
+    try:
+        avail = int(re.search(r'MemAvailable:\s+(\d+)', Path('/proc/meminfo').read_text()).group(1)) * 1024
+    except Exception:  # noqa
+        avail = 16 << 30
+    budget = max(6 << 30, int(avail * 0.4))
+    cond = threading.Condition()
+    state = {'used': 0}
+
+    def one(item):
+        path, words = item
+        need = min(budget, 300_000_000 + 17_000 * words)
+        with cond:
+            while state['used'] + need > budget and state['used'] > 0:
+                cond.wait()
+            state['used'] += need
+        try:
+            t = time.time()
+            rc, out = fw.coqc_file(path, timeout)
+            return path, (rc, out, time.time() - t)
+        finally:
+            with cond:
+                state['used'] -= need
+                cond.notify_all()
+    with ThreadPoolExecutor(max_workers=fw.NCPU) as ex:
+        return dict(ex.map(one, sorted(items, key=lambda it: -it[1])))
+
+
 def plan_pieces(im):
     """units: one per (block, product, chunk); bundled into files of about PIECE_STEPS machine steps"""
     units = []
@@ -743,6 +776,13 @@ def emit_master(im, ok_blocks):
     for b in ok_blocks:
         P = f'(fun vs => {P_of(b)} vs)'
 
+        def struct(us, pos):
+            """the concatenation term whose nesting mirrors the split tree of build()"""
+            if len(us) == 1:
+                return us[0]['prod'][pos].coq()
+            h = len(us) // 2
+            return f'({struct(us[:h], pos)} ++ {struct(us[h:], pos)})'
+
         def build(us):
             if len(us) == 1:
                 return f'{us[0]["file"]}.{us[0]["thm"]}'
@@ -750,15 +790,28 @@ def emit_master(im, ok_blocks):
             pos = us[0]['pos']
             pre = prod_coq(us[0]['prod'][:pos])
             post = prod_coq(us[0]['prod'][pos + 1:])
-            l1 = '(' + ' ++ '.join(u['prod'][pos].coq() for u in us[:h]) + ')'
-            l2 = '(' + ' ++ '.join(u['prod'][pos].coq() for u in us[h:]) + ')'
-            return f'(ldom_split_at {pre} {P} {l1} {l2} {post} {build(us[:h])} {build(us[h:])})'
+            return (f'(ldom_split_at {pre} {P} {struct(us[:h], pos)} {struct(us[h:], pos)} {post} '
+                    f'{build(us[:h])} {build(us[h:])})')
+
+        def group_term(pi, prod, us):
+            """proof of `forall vs, in_ldom prod vs -> P vs` from the pieces of this product"""
+            if len(us) == 1:
+                return f'{us[0]["file"]}.{us[0]["thm"]}'
+            pos = us[0]['pos']
+            pre = prod_coq(prod[:pos])
+            post = prod_coq(prod[pos + 1:])
+            en = f'e_{b.bid}_{pi}'
+            # the operand's value list equals the concatenation of its shards: by computation, once
+            txt.append(f'Lemma {en} : {prod[pos].coq()} = {struct(us, pos)}.')
+            txt.append('Proof. vm_compute. reflexivity. Qed.')
+            return f'(ldom_recut {pre} {P} _ _ {post} {en} {build(us)})'
         tn = theorem_name(b)
         txt.append(f'(* {b.title} *)')
-        txt.append(f'Theorem {tn} : forall vs,\n  in_udom\n    {udom_coq(b.udom)} vs ->\n  {P_of(b)} vs.')
         term = f'(udom_nil {P})'
-        for prod, group in reversed(list(zip(b.udom, b.pieces))):
-            term = f'(udom_cons {P} {prod_coq(prod)} _\n   ({build(group)} : forall vs, in_ldom {prod_coq(prod)} vs -> {P_of(b)} vs)\n   {term})'
+        gts = [group_term(pi, prod, group) for pi, (prod, group) in enumerate(zip(b.udom, b.pieces))]
+        for prod, gt in reversed(list(zip(b.udom, gts))):
+            term = f'(udom_cons {P} {prod_coq(prod)} _\n   ({gt} : forall vs, in_ldom {prod_coq(prod)} vs -> {P_of(b)} vs)\n   {term})'
+        txt.append(f'Theorem {tn} : forall vs,\n  in_udom\n    {udom_coq(b.udom)} vs ->\n  {P_of(b)} vs.')
         txt.append(f'Proof. exact {term}. Qed.')
         txt.append(f'Print Assumptions {tn}.')
         for t in b.extra_thm:
@@ -823,14 +876,23 @@ def report_failure(ctx, cfg, b, values, exp, model_obs, engine_obs, verdicts, or
     ctx.violation(sig, what, replay)
 
 
+def e_doc(docs, b):
+    d = docs.get(getattr(b, 'entry_name', ''), {})
+    return ' '.join(d.get('doc', []))[:200]
+
+
 def run_property(ctx, cfg):
     t_start = time.time()
     only = os.environ.get('FJVERIF_STL_ONLY')
     table = [e for e in cfg.table if not only or re.search(only, e['name'])]
     prop = ctx.prop
     fw.static_proofs(ctx, [f'Properties/{prop}.v'])
-    gen_prefixes = [f'Img_{prop}', f'StlP_{prop}', f'StlT_{prop}', f'StlTie_{prop}', f'StlD_{prop}']
-    stl.clean_gen(gen_prefixes)
+    # generated files carry the pid of this run in their names (same convention as stl.run_property): concurrent runs of the
+    # check cannot clobber each other; stale files of dead runs are removed, ours are removed at exit
+    tag = f'{prop}p{os.getpid()}'
+    stl.clean_stale_gen()
+    gen_prefixes = [f'{d}{k}_{tag}_' for k in ('Img', 'StlP', 'StlT', 'StlTie', 'StlD') for d in ('', '.')]
+    atexit.register(stl.clean_gen, gen_prefixes)
     dc = stl.DistinctCount()
     ctx._distinct = dc
     cov = ctx.coverage
@@ -858,13 +920,23 @@ def run_property(ctx, cfg):
     cap = stl.IMG_EXTRA_WORDS
     stl.IMG_EXTRA_WORDS = IMG_EXTRA_WORDS       # pointer blocks are 6-20k words each: larger images, fewer image compilations
     try:
-        for ns in sorted({b.ns for b in blocks}):
-            images += stl.assemble_blocks(ctx, _subcfg(cfg, ns), [b for b in blocks if b.ns == ns], f'{prop}{ns}')
+        # one assembly group per (namespace, width): the start-up differs per namespace, and block sizes are measured at the
+        # group's (single) width - many blocks exist at one width only
+        for ns, w in sorted({(b.ns, b.w) for b in blocks}):
+            images += stl.assemble_blocks(ctx, _subcfg(cfg, ns), [b for b in blocks if b.ns == ns and b.w == w], f'{tag}_{ns}{w}')
     finally:
         stl.IMG_EXTRA_WORDS = cap
     for b in blocks:
         if b.asm_error:
-            ctx.broken_tie(f'assembly of harness block {b.title} (w={b.w})', b.asm_error)
+            known = getattr(b, 'asm_defect', None)
+            if known and known[1] in b.asm_error:
+                prog = stl.program_text(_subcfg(cfg, b.ns), [b], direct=True)
+                ctx.violation(known[0], f'{b.title} (w={b.w}) does not assemble: {b.asm_error[:300]}; documented: {e_doc(docs, b)}',
+                              {'block': b.title, 'macro': b.macro, 'w': b.w, 'ns': b.ns, 'asm_only': True, 'fj_program': prog,
+                               'builder': list(b.builder), 'observed': b.asm_error[:600], 'required': 'the program assembles (and the '
+                               'operand is left unchanged)', 'how': f'./check {ctx.prop} --replay <this file>   (assembles fj_program with the current repo)'})
+            else:
+                ctx.broken_tie(f'assembly of harness block {b.title} (w={b.w})', b.asm_error)
     t_asm = time.time()
 
     # ---- real engines on sampled operands (tests; also measures op counts)
@@ -908,7 +980,7 @@ def run_property(ctx, cfg):
 
     # ---- Coq: images, pieces, ties
     img_paths = {im['name']: emit_image(im) for im in images}
-    rimg = stl.coqc_many(list(img_paths.values()), 1200)
+    rimg = coqc_weighted([(img_paths[im['name']], im['res']['nwords']) for im in images], ctx.n(1500, 3000))
     live = []
     for im in images:
         rc, out, _ = rimg[img_paths[im['name']]]
@@ -1017,7 +1089,7 @@ def run_property(ctx, cfg):
     cov['coq_cases_proved'] = proved_cases
     cov['estimated_machine_steps'] = total_steps
     cov['images'] = [{'name': im['name'], 'w': im['w'], 'words': im['res']['nwords'], 'blocks': len(im['blocks'])} for im in images]
-    cov['checker_cmd'] += f' ; coqc (parallel, {fw.NCPU} jobs) on coq/Gen/Img_{prop}*.v StlP_{prop}*.v StlT_{prop}*.v StlTie_{prop}*.v'
+    cov['checker_cmd'] += f' ; coqc (parallel, {fw.NCPU} jobs) on coq/Gen/Img_{tag}_*.v StlP_{tag}_*.v StlT_{tag}_*.v StlTie_{tag}_*.v'
     cov['timing_s'] = {'assembly': round(t_asm - t_start, 1), 'engines': round(t_eng - t_asm, 1),
                        'coq_pieces': round(t_pieces - t_eng, 1), 'rest': round(t_end - t_pieces, 1)}
     cov['trusted_base'] += [
@@ -1035,8 +1107,8 @@ def run_property(ctx, cfg):
         'call trees are a generated finite family (listed in the evidence), recursion is not covered',
         'a pointed cell holds a byte (hex namespace) or a bit (bit namespace); write_hex is specified on the hex of the cell, the four '
         'bits above it must stay']
-    if not stl.fw_keep_gen():
-        stl.clean_gen(gen_prefixes)
+    if stl.fw_keep_gen():
+        atexit.unregister(stl.clean_gen)
 
 
 def diagnose(ctx, cfg, so, failed_units):
@@ -1123,6 +1195,12 @@ def replay(ctx, cfg, path):
         return 1
     name, params = rp['builder']
     w = rp['w']
+    if rp.get('asm_only'):
+        res = stl._asm_jobs(ctx, [{'name': 'replay', 'fj': rp['fj_program'], 'w': w, 'dir': str(ctx.scratch / 'replay'), 'temps': [],
+                                   'want_words': False}])[0]
+        print(f'[{ctx.prop} replay] {rp["block"]} w={w}: required: {rp["required"]}; observed: '
+              + ('assembles -> ok' if res['ok'] else f'{res.get("error", "?")[:300]} -> VIOLATION: does not assemble'))
+        return 0 if res['ok'] else 1
     b = cfg.builders[name](w=w, **params)
     ww = w.bit_length() - 1
     d = str(ctx.scratch / 'replay')
